@@ -14,7 +14,7 @@ import collections
 from .report import AnalysisError
 from .srcmodel import own_statements
 
-MAXDEPTH = 14
+MAXDEPTH = 60
 
 
 def _store_names(t):
@@ -33,6 +33,7 @@ class Resolver:
         self.fn = fn
         self.defs = collections.defaultdict(list)  # name -> [(kind, node, path)]
         self._memo = {}
+        self._keep = []
         self.flow = flow
         self.inline = inline
         self.cfg = None
@@ -179,6 +180,7 @@ class Resolver:
                 return hit
             r = self._term(e, _visiting, _depth, None, at)
             self._memo[mk] = r
+            self._keep.append(e)  # the key holds id(e): the node must stay alive as long as the memo does
             return r
         return self._term(e, _visiting, _depth, _compenv, at)
 
@@ -214,6 +216,12 @@ class Resolver:
             kws = [(k.arg, T(k.value)) for k in e.keywords]
             if ft[0] == "attr" and ft[1] in (("name", "operator"), ("name", "_operator")) and ft[2] in OPERATOR_MODULE and len(args) == 2 and not kws:
                 return ("op", OPERATOR_MODULE[ft[2]], tuple(args))  # operator.lt(a, b) is a < b
+            if isinstance(f, ast.Name) and not args and not kws:
+                g = self.m.funcs.get(self.fn.qual + "." + f.id)
+                if g is not None:
+                    gt = self._local_generator(g)
+                    if gt is not None:
+                        return gt
             callee = self._callee(f, ft)
             if callee is not None:
                 args, kws = _positional(callee, args, kws, bound=not isinstance(f, ast.Name) or callee.name == "__init__")
@@ -257,6 +265,34 @@ class Resolver:
             return T(e.value)
         return ("expr", ast.unparse(e)[:80])
 
+    def _local_generator(self, g):
+        """A call of a parameterless local generator function with a single `yield <expr>` is the generator
+        of that expression: ('gen', term of the yielded expression, ()).  Closure variables are resolved
+        in this function."""
+        ys = [n for n in ast.walk(g.node) if isinstance(n, (ast.Yield, ast.YieldFrom))]
+        if len(ys) != 1 or not isinstance(ys[0], ast.Yield) or ys[0].value is None or g.params:
+            return None
+        if any(isinstance(n, ast.Return) and n.value is not None for n in ast.walk(g.node)):
+            return None
+        cache = self.__dict__.setdefault("_gen_cache", {})
+        if g.qual not in cache:
+            cres = Resolver(self.m, g, flow=True)
+            cres._parent_res = self if not self.flow else Resolver(self.m, self.fn, flow=False)
+            t = cres.term(ys[0].value)
+
+            def norm(t):
+                if not isinstance(t, tuple) or not t:
+                    return t
+                if t[0] == "outer":
+                    return norm(t[1])
+                t = tuple(norm(x) if isinstance(x, tuple) else x for x in t)
+                if t[0] == "attr" and t[1] == ("self",):
+                    return ("field", t[2])
+                return t
+
+            cache[g.qual] = ("gen", norm(t), ())
+        return cache[g.qual]
+
     def _bind_comp(self, target, base, ce):
         def rec(t, term):
             if isinstance(t, ast.Name):
@@ -284,7 +320,8 @@ class Resolver:
                 if pr is None:
                     pr = self._parent_res = Resolver(self.m, p, flow=False)
                 if name in pr.defs or name in p.params:
-                    return ("outer", pr.term(ast.Name(id=name, ctx=ast.Load()), at=None))
+                    # (no temporary AST node here: the memo is keyed by node identity)
+                    return ("outer", pr._name(name, frozenset(), 0, None, None))
             lit = self._module_literal(name)
             if lit is not None:
                 return lit
@@ -343,7 +380,8 @@ class Resolver:
 
         def rec(e, at):
             if not (isinstance(e, ast.Name) and (e.id in self.defs or e.id in self.fn.params)):
-                out.append((None, self.term(e, at=at)))
+                # a global / builtin name copied into a local: the copying statement is the definition site
+                out.append((chain[-1] if chain else None, self.term(e, at=at)))
                 chains.append(list(chain))
                 return
             name = e.id
